@@ -395,10 +395,20 @@ type aliasMap struct {
 }
 
 func (am aliasMap) varAliases(k string) (vals []string) {
+	return am.walkAliases(k, map[string]struct{}{})
+}
+
+// walkAliases follows aliases of aliases, each name only once: templates can
+// re-declare variables in terms of each other ($a := $b, $b := $a).
+func (am aliasMap) walkAliases(k string, seen map[string]struct{}) (vals []string) {
+	if _, ok := seen[k]; ok {
+		return vals
+	}
+	seen[k] = struct{}{}
 	vals = append(vals, k)
 	if as, ok := am.aliases[k]; ok {
 		for val := range as {
-			vals = append(vals, am.varAliases(val)...)
+			vals = append(vals, am.walkAliases(val, seen)...)
 		}
 	}
 	return vals
